@@ -6,6 +6,7 @@
 package main
 
 import (
+	"encoding/json"
 	"fmt"
 	"sort"
 	"strings"
@@ -34,7 +35,33 @@ type world struct {
 	srv   *sio.Server
 	socks []*sockLog
 	gate  chan struct{} // middleware gate (nil = no blocking middleware)
+	// passThrough: the middleware does not wait at the gate (the earlier session of the recovery phases)
+	passThrough bool
 }
+
+// How a socket comes to sit in a room BEFORE its admission (a socket has an id and can Join from the moment it
+// exists, i.e. while the namespace middlewares are still deciding about it).
+const (
+	preNone      = ""
+	preJoin      = "Join-in-the-middleware"       // the middleware sorts the socket into a room (socket.Join) and is slow afterwards
+	preRecovered = "rooms-of-a-recovered-session" // connection state recovery with UseMiddlewares: the socket re-joins the rooms of its session, then the middlewares run
+)
+
+// mwPhase describes an in-middleware phase: what the socket already holds when the connection ends under the
+// middleware's feet, and what the middleware decides afterwards.
+type mwPhase struct {
+	pre    string
+	reject bool
+}
+
+var mwPhases = map[string]mwPhase{
+	phMiddleware:               {},
+	phMiddlewareJoined:         {pre: preJoin},
+	phMiddlewareJoinedRejected: {pre: preJoin, reject: true},
+	phMiddlewareRecovered:      {pre: preRecovered},
+}
+
+func inMiddleware(phase string) bool { _, ok := mwPhases[phase]; return ok }
 
 func (w *world) byNS(ns string) *sockLog {
 	for _, s := range w.socks {
@@ -45,8 +72,12 @@ func (w *world) byNS(ns string) *sockLog {
 	return nil
 }
 
-func newWorld(namespaces []string, blockingMiddleware bool) *world {
-	w := &world{srv: sio.NewServer(nil)}
+func newWorld(namespaces []string, blockingMiddleware bool, mw mwPhase) *world {
+	var scfg *sio.ServerConfig
+	if mw.pre == preRecovered {
+		scfg = &sio.ServerConfig{ServerConnectionStateRecovery: sio.ServerConnectionStateRecovery{Enabled: true, UseMiddlewares: true}}
+	}
+	w := &world{srv: sio.NewServer(scfg)}
 	if blockingMiddleware {
 		w.gate = make(chan struct{})
 	}
@@ -55,7 +86,17 @@ func newWorld(namespaces []string, blockingMiddleware bool) *world {
 		nsp := w.srv.Of(ns)
 		if blockingMiddleware {
 			nsp.Use(func(s sio.ServerSocket, h *sio.Handshake) any {
-				vsched.RecvStmt(w.gate)
+				if mw.pre == preJoin {
+					s.Join(earlyRoom)
+				}
+				wait := true
+				w.v.Do(func() { wait = !w.passThrough })
+				if wait {
+					vsched.RecvStmt(w.gate)
+				}
+				if mw.reject {
+					return "not admitted"
+				}
 				return nil
 			})
 		}
@@ -131,10 +172,15 @@ var causes = []cause{
 const (
 	phBeforeConnect = "before-CONNECT"
 	phMiddleware    = "in-middleware"
-	phIdle          = "connected-idle"
-	phBurstOut      = "burst-server-to-client"
-	phBurstIn       = "burst-client-to-server"
-	phTwoNS         = "two-namespaces"
+	// the same, but the socket the middleware is deciding about already sits in a room (see preJoin / preRecovered);
+	// the middleware then admits it - or turns it away - after the connection has ended
+	phMiddlewareJoined         = "in-middleware-that-joined-a-room"
+	phMiddlewareJoinedRejected = "in-middleware-that-joined-a-room-and-rejects"
+	phMiddlewareRecovered      = "in-middleware-of-a-recovered-session-with-rooms"
+	phIdle                     = "connected-idle"
+	phBurstOut                 = "burst-server-to-client"
+	phBurstIn                  = "burst-client-to-server"
+	phTwoNS                    = "two-namespaces"
 	// the peer sent CONNECT twice for one namespace while the middleware was busy: both are admitted (each
 	// packet is handled on its own goroutine and the socket is registered with the connection only at the
 	// end of the admission), so the connection carries two sockets of one namespace when it ends
@@ -154,14 +200,24 @@ func scenario(phase string, cs []cause, bound int) *vx.Scenario {
 		if phase == phTwoNS {
 			nss = []string{"/", "/b"}
 		}
-		w := newWorld(nss, phase == phMiddleware || phase == phTwoConnects)
+		mw := mwPhases[phase]
+		w := newWorld(nss, inMiddleware(phase) || phase == phTwoConnects, mw)
+		connectFrame := "0"
+		if mw.pre == preRecovered {
+			// an earlier session of the same client: it joined a room, saw a broadcast (which gives it an offset) and lost its transport
+			connectFrame = earlierSession(w)
+		}
 		f := vrig.NewFakeEIO(w.srv, "c06")
-		switch phase {
-		case phBeforeConnect:
-		case phMiddleware:
-			f.In("0") // CONNECT; the middleware blocks
+		switch {
+		case phase == phBeforeConnect:
+		case inMiddleware(phase):
+			f.In(connectFrame) // CONNECT; the middleware blocks
 			vrig.Settle(time.Second)
-		case phTwoConnects:
+			if mw.pre != preNone && !inRoom(w.srv.Of("/"), earlyRoom) {
+				// the ingredient of the phase is missing (e.g. the session was not restored): not a verdict
+				vsched.Await(func() bool { return false })
+			}
+		case phase == phTwoConnects:
 			f.In("0")
 			f.In("0")
 			vrig.Settle(time.Second)
@@ -205,7 +261,7 @@ func scenario(phase string, cs []cause, bound int) *vx.Scenario {
 			c := c
 			vsched.GoQuiet(fmt.Sprintf("cause%d:%s", i, c.name), func() { c.run(w, f) })
 		}
-		if phase == phMiddleware {
+		if inMiddleware(phase) {
 			vsched.GoQuiet("release-middleware", func() { vsched.Close(w.gate) })
 		}
 		// afterwards the peer keeps talking: events after the end must not reach handlers
@@ -273,14 +329,14 @@ func scenario(phase string, cs []cause, bound int) *vx.Scenario {
 				if nDisc > 1 || nDiscing > 1 {
 					r.Violate(key("disconnect reported more than once"), "socket %s: %v (causes %v)", l.ns, l.log, names)
 				}
-				if must && nDisc == 0 && l.handlersReady && phase != phMiddleware {
+				if must && nDisc == 0 && l.handlersReady && !inMiddleware(phase) {
 					r.Violate(key("disconnect never reported for a socket that had connected"), "socket %s: %v (causes %v)", l.ns, l.log, names)
 				}
 				if !must && nDisc > 0 {
 					r.Violate(key("disconnecting one namespace disconnected another"), "socket %s: %v (causes %v)", l.ns, l.log, names)
 				}
 				ended := nDisc > 0 || must
-				if ended && phase != phMiddleware {
+				if ended && !inMiddleware(phase) {
 					leftovers(&r, key, w, f, l, names)
 				}
 			}
@@ -291,13 +347,16 @@ func scenario(phase string, cs []cause, bound int) *vx.Scenario {
 					rooms, sids, _ := adapter.VerifDump(nsp.Adapter())
 					if n := len(nsp.Sockets()); n != 0 || len(rooms) != 0 || len(sids) != 0 {
 						what := "socket left on the server after its connection ended"
-						if phase == phMiddleware {
+						if inMiddleware(phase) {
 							what = "socket admitted after its connection ended and never closed"
+							if mw.pre != preNone && n == 0 {
+								what = "rooms a socket was put into before its admission stay in the adapter although its connection ended while the middleware ran"
+							}
 						}
 						r.Violate(key(what), "namespace %s: %d sockets listed, adapter rooms=%v sids=%v; application saw %v; causes %v", ns, n, rooms, sids, out, names)
 					}
 				}
-				if ids := f.Conn.SocketIDs(); len(ids) != 0 && phase != phMiddleware {
+				if ids := f.Conn.SocketIDs(); len(ids) != 0 && !inMiddleware(phase) {
 					r.Violate(key("connection still tracks sockets after it ended"), "%v", ids)
 				}
 			}
@@ -307,6 +366,56 @@ func scenario(phase string, cs []cause, bound int) *vx.Scenario {
 		}
 	}
 	return sc
+}
+
+// earlyRoom is the room a socket sits in before its admission in the phases with a pre-admission membership.
+const earlyRoom = "early-lobby"
+
+func inRoom(nsp *sio.Namespace, room string) bool {
+	rooms, _, _ := adapter.VerifDump(nsp.Adapter())
+	return len(rooms[room]) > 0
+}
+
+// earlierSession runs a first session of the client on a connection of its own (default schedule): CONNECT, the
+// application puts the socket into earlyRoom, the namespace broadcasts once, the transport is lost. It returns the
+// CONNECT frame that asks for the recovery of that session, and arms the middleware gate for the connection to come.
+// If anything of that does not happen the body never returns (HARNESS-ERROR), it is not a verdict.
+func earlierSession(w *world) string {
+	never := func() { vsched.Await(func() bool { return false }) }
+	w.v.Do(func() { w.passThrough = true })
+	f0 := vrig.NewFakeEIO(w.srv, "c06-earlier")
+	f0.ConnectNS("/")
+	vsched.Await(func() bool { return len(w.socks) == 1 && w.socks[0].handlersReady })
+	w.socks[0].sock.Join(earlyRoom)
+	w.srv.Of("/").Emit("tick")
+	vrig.Settle(time.Second)
+	var ids struct {
+		PID string `json:"pid"`
+	}
+	offset := ""
+	for _, t := range f0.Texts() {
+		switch {
+		case strings.HasPrefix(t, "0{"):
+			json.Unmarshal([]byte(t[1:]), &ids)
+		case strings.HasPrefix(t, `2["tick",`):
+			var args []string
+			if json.Unmarshal([]byte(t[1:]), &args) == nil && len(args) == 2 {
+				offset = args[1]
+			}
+		}
+	}
+	if ids.PID == "" || offset == "" {
+		never()
+	}
+	f0.TransportClose(eio.ReasonTransportClose)
+	vrig.Settle(time.Second)
+	if n := len(w.srv.Of("/").Sockets()); n != 0 || inRoom(w.srv.Of("/"), earlyRoom) {
+		never() // (the plain phases judge this end)
+	}
+	// the application's view starts afresh with the connection under study
+	w.v.Do(func() { w.socks = nil; w.passThrough = false })
+	auth, _ := json.Marshal(map[string]string{"pid": ids.PID, "offset": offset})
+	return "0" + string(auth)
 }
 
 // leaveAtOnce: the client sends DISCONNECT for the namespace right behind its CONNECT (or the application kicks
@@ -435,12 +544,12 @@ func scenarios(tier string) []*vx.Scenario {
 	}
 	var s []*vx.Scenario
 	// every single cause x phase
-	for _, ph := range []string{phBeforeConnect, phMiddleware, phIdle, phBurstOut, phBurstIn, phTwoNS, phTwoConnects} {
+	for _, ph := range []string{phBeforeConnect, phMiddleware, phMiddlewareJoined, phMiddlewareJoinedRejected, phMiddlewareRecovered, phIdle, phBurstOut, phBurstIn, phTwoNS, phTwoConnects} {
 		for _, c := range causes {
 			if ph == phTwoConnects && !c.whole {
 				continue // which of the two sockets a namespace-level cause means is not defined
 			}
-			if ph == phBeforeConnect || ph == phMiddleware {
+			if ph == phBeforeConnect || inMiddleware(ph) {
 				// no socket exists yet: socket-level causes do not apply
 				if strings.HasPrefix(c.name, "socket.") || c.name == "client-DISCONNECT-frame" {
 					continue
@@ -473,7 +582,7 @@ func main() {
 	vx.Main(vx.Config{
 		Property: "C06",
 		Level:    "model_checking",
-		Rule: "every termination cause (client DISCONNECT frame, Disconnect(false/true), Engine.IO close with each of its 5 reasons, protocol error, packet for an unknown namespace, connect timeout) x phase (before CONNECT, middleware blocked, idle, burst either way, two namespaces) and every unordered pair of causes at once, each explored to the deviation bound after a default-schedule set-up; " +
+		Rule: "every termination cause (client DISCONNECT frame, Disconnect(false/true), Engine.IO close with each of its 5 reasons, protocol error, packet for an unknown namespace, connect timeout) x phase (before CONNECT, middleware blocked - also with the socket already in a room before its admission: Join in the middleware, then admitted or rejected, or the rooms of a recovered session with UseMiddlewares -, idle, burst either way, two namespaces) and every unordered pair of causes at once, each explored to the deviation bound after a default-schedule set-up; " +
 			"sio<->sio over the in-process polling link for Server.Close / Manager.Close / client Disconnect / Disconnect(true) / black-holed link, and the same API causes plus a cut of the new pipe striking at k*L/2 (k=0..7) into a transport upgrade over the duplex pipe of rig R4; Server.Close / Manager.Close / client Disconnect issued right after Connect() (connection still being set up); and a scripted Engine.IO polling session cut at every k-th byte of every request body and response (fault enumeration). distinct_nontrivial = deviating schedules + cut points",
 		Scenarios: scenarios,
 		Budget: func(tier string) time.Duration {
